@@ -1,15 +1,80 @@
 """What MANIFEST.json claims, per property.  Edited by hand as contracts come online."""
-NOTES = ("Contract-based deductive verification with a home-built verifier (ujvc, DESIGN.md section 2). "
-         "Exit codes of ./check: 0 held, 1 VIOLATION, 2 undecided, 3 crash.")
+NOTES = ("Contract-based deductive verification with a home-built verifier (ujvc, DESIGN.md section 2): the real functions are extracted "
+         "from /repo/src with ast on every run and executed by CPython on symbolic proxies with loops / calls cut by sidecar contracts; "
+         "obligations are discharged by z3 (stage P) and refuted in a finite scope (stage R). Exit codes of ./check: 0 held, 1 VIOLATION, "
+         "2 undecided, 3 crash. Units labelled 'bounded' are stand-ins that are reported separately in the evidence and never counted as proved. "
+         "The check of a property also discharges the obligations of the properties its argument uses as lemmas (ujvc/check.py DEPENDS).")
+
+_ENGINE = ("rely/guarantee proof of the real worker code: every shared access of process_node is one atomic step, the always-invariant "
+           "G1,G2,G3,G6 and the lock invariants G4,G5 are re-established after each step (z3; cardinality facts are instances of lemma schemas "
+           "checked by cvc5)")
 
 CLAIMED = {
+    "C01": dict(
+        technique="contract verification (rely/guarantee with lock invariants) of the real process_node, prepare_nodes, predecessor_count, queues, coordinator; z3 + finite-scope refutation",
+        text="Proved for all graphs, worker counts, queue kinds and interleavings in the access-atomic sequentially consistent model: at the call of fn(node) every "
+             "predecessor is in the ghost set 'completed', which is only extended when fn returned normally (" + _ENGINE + "); prepare_nodes / predecessor_count "
+             "establish the invariant (distinct predecessors); the queues neither lose nor duplicate items; process (run_physical) ties 'completed' to the call function having returned.",
+        note="Assumes the GIL memory model (T2), queue.Queue / Lock / Thread contracts (T3, T4), networkx adjacency views (T5) and the ownership-transfer rule through the queue (T14, paper argument). "
+             "Reachability preservation by literal pruning (L-BYPASS) is a stated lemma, validated only by the bounded native probe. greedy priorities are not under contract (T12).",
+    ),
+    "C02": dict(
+        technique="contract verification of BoundCall.run / bound-call construction / process / run composition / Plan._call / unpack / edge keys; bounded native enumeration for _gather and get_argument_nodes",
+        text="Proved: Plan._call adds exactly the positional / keyword edges with their indices (symbolic graph), bound calls take exactly the slots of get_argument_nodes in order and under their names, "
+             "BoundCall.run passes slot values read at call time in order, literals are their own slot (identity), run returns the output slot; schedule independence through C01/C04. "
+             "BOUNDED (not counted as proved): the substitution semantics of _gather and get_argument_nodes over all argument trees of depth <= 2.",
+        note="_gather.recurse and get_argument_nodes are decided only by the bounded stand-in (contracts/plumbing.py) and the native probe; validation.assert_can_bind and greedy are not under contract.",
+    ),
+    "C03": dict(
+        technique="layer 1: contracts on the real stale check, rewrite, pruning, run composition (z3); layer 2 (history induction): lemma statements + bounded native probe over generated histories",
+        text="Proved per function: process computes the declarative Stale / M spec functions for every node; _add_value_store performs exactly the specified whole-graph rewrite; "
+             "plan_with_value_stores requires exactly the write nodes of the stale entries; prune_plan keeps the ancestors; run composes them. The induction over histories "
+             "(invariant 'looks fresh => from-scratch value') is NOT mechanised: it is covered by the bounded probe (histories <= 6 steps over plans <= 6 nodes) only.",
+        note="Layer 2 is bounded, never counted as proved. Dependent sources are outside the store view. Deterministic call functions and well-behaved stores are assumed (statement).",
+    ),
+    "C04": dict(
+        technique="same engine invariant as C01 (token exclusivity, put only of not-yet-enqueued nodes), queue contracts, all_ancestors loop invariant, prune_plan composition",
+        text="Proved: fn(node) is called at most once per token and a node is put only if it is not already enqueued (G3/G4 with the cardinality lemmas), for all interleavings; "
+             "all_ancestors returns a predecessor-closed set inside Anc(S) that contains S; prune_plan removes exactly the complement; run passes required_nodes=[] without a registry.",
+        note="'Anc(S) is contained in every predecessor-closed superset of S' (L-REACH) and the completion lemma (every enabled node is eventually processed) are stated lemmas; the second sentence of the property "
+             "additionally rests on the bounded probe for completion. Termination of all_ancestors is not proved.",
+    ),
+    "C05": dict(
+        technique="contract verification of the stale check against the declarative out-of-date spec (symbolic times, z3), of plan_with_value_stores (write set) and of _add_value_store (no write node for fresh entries)",
+        text="Proved: stale_lookup[n] == Stale(n) with the strict comparison and the pure-source clause taken from the statement; required == {write(n) | n registered and stale}; "
+             "a fresh stored node gets no write node and its argument consumers are re-pointed to the read node; a bounded stand-in (<= 3 predecessors) keeps deciding the per-node spec when the code is restructured.",
+        note="'each exactly once' and 'nothing else runs' use C04 and L-NEEDED (stated lemma, bounded probe). Idempotence of a repeated run is checked by the bounded probe only.",
+    ),
+    "C06": dict(
+        technique="engine invariant (completed and failed disjoint, put requires all predecessors completed), failure-lock invariant G5, concrete identity checks of NodeError / CallError objects on every path",
+        text="Proved: the failure path never adds to 'completed' and never enqueues successors; first_node_error is written only when unset, names the thread's own node and carries the very exception; "
+             "no exception escapes process_node (BaseException included); the coordinator raises exactly that object after the pool is drained; run turns NodeError e into CallError(e.node) from e.__cause__.",
+        note="'first failure with one worker' follows from G5 with worker_count = 1 (not a separate obligation). A registered Literal whose modified-time query fails yields AttributeError instead of CallError: known finding F4 (reported under C19).",
+    ),
+    "C07": dict(
+        technique="contracts on process_items (task_done exactly once per get), worker_pool (all started threads joined on every exit), coordinator (DONE count, cleanup on exceptional join), process_node (nothing escapes)",
+        text="Safety premises proved for all paths: every get is followed by exactly one task_done; exactly worker_count DONEs are put on every exit of queue.join(); every started worker is joined on every exit of the pool; "
+             "assert_acyclic is the first effect of the engine and nothing happens after it raises. NOT proved: liveness (run returns in finite time) needs scheduler fairness and terminating call functions; "
+             "the Kahn loop of topological_sort is not under contract yet (cycle detection itself is trusted).",
+        note="liveness: not proved (paper argument in DESIGN.md); topological_sort: assumed correct, exercised only by the bounded probes.",
+    ),
+    "C08": dict(
+        technique="the same per-function contracts as C03/C05/C09 plus the C11 file-level proof; the cut-point argument is a stated lemma validated by the bounded probe",
+        text="Proved pieces: the invariant GI holds after every atomic step (so the set of effected operations is predecessor-closed at every cut), nothing downstream of a failure takes effect (C06), "
+             "rebuilt values are written before their consumers start (C09), file stores publish atomically at every fault point (C11). The lemma 'a stored value that looks fresh after a cut equals its from-scratch value' is NOT mechanised.",
+        note="history-level lemma: bounded probe only (failed runs inside generated histories). Process death between store operations is the same argument; os._exit is modelled as 'no further operation takes effect'.",
+    ),
+    "C09": dict(
+        technique="whole-graph postcondition of the real _add_value_store on a symbolic MultiDiGraph (z3, finite-scope refutation), output redirection in plan_with_value_stores and run",
+        text="Proved for every node kind / source flag / staleness: E' is exactly the specified rewrite - write -> read (Dep), argument consumers re-pointed to the read node with the same key, plain dependents to the write node, "
+             "Barrier inheriting a stale source's predecessors - and nothing else changes; the output is redirected to the read node; ordering then follows from C01.",
+        note="Plan.lit / Plan._call are stubs carrying contracts that are proved separately (contracts/plumbing.py). L-BYPASS for _prune_literal_if_trivial is a stated lemma.",
+    ),
     "C10": dict(
-        technique="contract verification: loop invariant on the real create_retry/wrapper (symbolic attempts), z3",
-        text="retry clause proved for all attempts >= 1, all exception classes and all outcomes of the wrapped function: "
-             "loop invariant calls == attempt_index on the real wrapper, postconditions per exit (result / exception identity decided natively). "
-             "max_workers / max_errors clauses: see level_note.",
-        note="Only the retry clause is decided so far; the worker-count and max_errors bounds are not yet under contract. "
-             "'that many do run in parallel' is a liveness lower bound and is not decided by contracts.",
+        technique="loop invariant on the real retry wrapper; ghost in-flight set and failure-lock invariant for max_errors; worker_pool / coordinator contracts for max_workers; run composition for the plumbing",
+        text="Proved: retry (all attempts >= 1, exception classes, outcomes); exactly worker_count threads run process_items and fn is only called after an unset stop flag was read; "
+             "error_count + in-flight <= max_errors + worker_count once stop is set (G5 with cardinality lemmas); stale check sized by stale_check_max_workers defaulting to max_workers; both phases get the same coerced retry.",
+        note="'that many do run in parallel' and the exact count with one worker are liveness / completion statements: not decided. 'at most worker_count tokens are held' is the worker_pool contract plus T14.",
     ),
     "C11": dict(
         technique="contract verification: real staged_write_path/staged_write/_try_remove and each store's write executed on a ghost file system; complete enumeration of ok/raise/partial/die at every file operation",
@@ -25,10 +90,47 @@ CLAIMED = {
         note="The stdlib pairs (codecs, json, pickle, text-layer newline translation on POSIX) are assumed inverse as documented (T8), validated only by the bounded native run used as replay. "
              "'never decreases' is relative to a monotone system clock.",
     ),
+    "C13": dict(
+        technique="frame obligations: run composition (the caller's plan is only ever passed to get_mutable_plan(inplace=False)), copies, inplace flags of every transformation, node attributes untouched by the rewrite",
+        text="Proved on every path of run (registry / none / empty, dry run, failures in either phase, transform_physical): nothing but the copy is handed to any transformation; the registry only reaches plan_with_value_stores; "
+             "Plan.copy / Registry.copy share no mutable container; _add_value_store leaves the node's own attributes alone and restores plan._scope; prune_* work on a copy unless inplace.",
+        note="render (_rendering.py) is not under contract (nxv-dependent); it is covered by nothing but the repository's tests. networkx copy independence is T5.",
+    ),
+    "C14": dict(
+        technique="path obligations on run (dry run returns exactly the pair the real run would execute, calls nothing afterwards), stale check never reads/writes a store, self-containedness from the rewrite postcondition",
+        text="Proved: on the dry path no run_physical call follows and the returned (plan, output node) is the pair handed to run_physical on the other path, after registry transformation, pruning and transform_physical; "
+             "the stale check only calls get_modified_time; stores appear in the physical plan only as literal arguments of their read / write calls.",
+        note="'performs exactly the same operations' additionally assumes deterministic stores (T7); checked end to end by the bounded probe only.",
+    ),
+    "C15": dict(
+        technique="trace postconditions on process / process_with_callbacks (exact suffix per outcome), totals functions, observer bracket in run, composite forwarding",
+        text="Proved: each call produces running.completed / running.failed(CallError caused by the exception) / running only (non-Exception BaseException) with the full call scope (+ store class in the stale section); "
+             "totals are announced before the section runs, from the plan that is executed; the observer is entered first and exited last on every path; composites forward everything to every member.",
+        note="Observer methods are assumed not to raise (T7). Equality of completed and total in a successful run uses C04 (each call exactly once).",
+    ),
+    "C16": dict(
+        technique="structural contracts: bound-call construction (who holds which slot), release of the bound call on every exit of process",
+        text="Proved: every Call gets a fresh slot, BoundCall(c) holds exactly the slots of c's argument predecessors and c's own result slot, the output slot is the output node's; "
+             "bound_call_lookup[c].value is None on every exit of process(c). NOT expressible: that the object is actually unreachable / collected (tracebacks, frames, reference cycles).",
+        note="Garbage-collectability is outside contract-based verification; reference cycles created elsewhere (e.g. by a retry decorator keeping exceptions) are invisible to these contracts.",
+    ),
     "C18": dict(
         technique="contract verification of _to_naive_utc_time against the spec function instant() with an uninterpreted local-offset function (all time zones / DST rules), z3",
         text="Proved for all values (None, aware with any offset, naive with any fold) and all local-time rules: the normalised key equals the instant the value denotes; "
-             "get_modified_time of the file stores returns the naive local time of the file's mtime instant. Use-site obligations (every time passes through the normalisation before any comparison) are part of the stale-check contract.",
+             "get_modified_time of the file stores returns the naive local time of the file's mtime instant; in the stale check the store's time and fresh_time are normalised before any comparison.",
         note="Assumes datetime.astimezone / fromtimestamp / replace behave as documented (T10).",
+    ),
+    "C19": dict(
+        technique="complete enumeration of frame chains for get_stack_frame / render_symbolic_traceback (frames beyond the depth limit are never inspected), AST obligations on the call sites, rewrite postcondition for inherited frames",
+        text="Proved: get_stack_frame returns the frames from the caller's caller outward, at most MAX_TRACEBACK_DEPTH + 1, with the truncation marker iff more exist, and depends on the current chain only; "
+             "rendering lists them outermost first; call / gather / unpack / add / source capture the frame in their own undecorated body with the default depth; read / write nodes inherit the registry entry's frame; "
+             "CallError.call and __cause__ are the failed node and its exception.",
+        note="Known finding F4: CallError cannot be built for a registered Literal (AttributeError). T11: a plain def adds exactly one frame.",
+    ),
+    "C20": dict(
+        technique="contracts on State (symbolic counts, real-valued time), sorted_scope_items on generic opaque scope values, cut update-thread loop with ghost version; bounded enumeration of renders",
+        text="Proved: legal notifications keep State well formed and raise nothing; the weighted elapsed times grow by exactly the elapsed time while something runs; sorting is total for merely hashable+equatable scope values; "
+             "the update thread's last rendering reflects the final state. BOUNDED: console / HTML _render on all small states; the IPython observer is not covered.",
+        note="Floating point treated as real arithmetic (T15). IPython widget layer: not under contract.",
     ),
 }
